@@ -181,6 +181,20 @@ namespace c12
     for(Index i = 0; i < want_cells; ++i) VF_CHECK(cnt[i] == 1, who << " assigns cell " << i << " to " << cnt[i] << " patches");
   }
 
+  /// cell graph whose edges are shared facets: number of components and largest finite distance between two cells
+  inline void facet_graph_stats(const Flat& f, int& comps, Index& diameter)
+  {
+    const int sd = f.sd; std::vector<Index> first(size_t(f.n[sd - 1]), ~Index(0)); std::vector<std::vector<Index>> adj(size_t(f.n[sd]));
+    for(Index c = 0; c < f.n[sd]; ++c) for(int k = 0; k < f.nc[sd][sd - 1]; ++k) { Index fc = f.at(sd, sd - 1, c, k); if(first[fc] == ~Index(0)) first[fc] = c; else { adj[c].push_back(first[fc]); adj[first[fc]].push_back(c); } }
+    comps = 0; diameter = 0; std::vector<char> comp_seen(size_t(f.n[sd]), 0);
+    for(Index s = 0; s < f.n[sd]; ++s)
+    {
+      std::vector<Index> dist(size_t(f.n[sd]), ~Index(0)), q{s}; dist[s] = 0;
+      for(size_t h = 0; h < q.size(); ++h) { Index c = q[h]; diameter = std::max(diameter, dist[c]); for(Index o : adj[c]) if(dist[o] == ~Index(0)) { dist[o] = dist[c] + 1; q.push_back(o); } }
+      if(!comp_seen[s]) { ++comps; for(Index c : q) comp_seen[c] = 1; }
+    }
+  }
+
   template<typename Shape_> inline void builtin_case(vf::Tape& t, vf::Ctx& c)
   {
     constexpr int sd = Shape_::dimension; constexpr bool sx = ShapeInfo<Shape_>::simplex;
@@ -189,7 +203,18 @@ namespace c12
     c.desc = gi.desc; c.desc.set("shape", ShapeInfo<Shape_>::name()); c.label(std::string("shape:") + ShapeInfo<Shape_>::name());
     c10::fail_if_invalid(c, gi);
     const Index ncells = L.node->get_mesh()->get_num_elements();
-    const int which = t.pick({1, 1});   // 0 Parti2Lvl, 1 PartiIterative
+    int which = t.pick({1, 1});   // 0 Parti2Lvl, 1 PartiIterative
+    int comps = 0; Index diam = 0; facet_graph_stats(flatten<Shape_>(*L.node->get_mesh(), false), comps, diam);
+    c.label(comps == 1 ? "mesh:facet-connected" : "mesh:facet-disconnected"); c.desc.set("facet_components", comps); c.desc.set("facet_diameter", (long long)diam);
+    // PartiIterative asserts num_elems >= num_patches: requested counts 1..min(32, ncells)
+    const Index req_it = Index(1 + t.range(0, int(std::min<Index>(ncells, 32)) - 1));
+    // its distance search gives up beyond this distance from a centre (parti_iterative.hpp, exploration_threshold)
+    const Index thr = std::max<Index>(std::max<Index>(Index(std::pow(double(ncells), 1.0 / double(sd)) + 1.0), ncells / req_it), Index(2));
+    const bool may_leave_cells_unreached = (comps > 1) || (diam > thr);
+    // known finding c12-iterative-unreached: cells that no centre's search reaches (other facet-component, or farther than the
+    // exploration threshold from every centre) keep an uninitialised patch number / get distance 0 by wrap-around.  With the
+    // switch on, PartiIterative only sees meshes on which every search reaches every cell; the others go to Parti2Lvl.
+    if(which == 1 && may_leave_cells_unreached && c.excl("c12-iterative-unreached")) which = 0;
     if(which == 0)
     {
       // requested counts 1..32; half of the cases ask for a count for which a 2-level partition exists (ncells * factor^k)
@@ -210,11 +235,10 @@ namespace c12
     }
     else
     {
-      // PartiIterative asserts num_elems >= num_patches: requested counts 1..min(32, ncells)
-      const Index req = Index(1 + t.range(0, int(std::min<Index>(ncells, 32)) - 1));
+      const Index req = req_it;
       const uint32_t seed = 1u + (t.raw() % 1000000u);
       c.desc.set("partitioner", "iterative"); c.desc.set("requested", (long long)req); c.desc.set("time_seed", (long long)seed); c.label("partitioner:iterative");
-      c.label(req == 1 ? "req:1" : (req == ncells ? "req:ncells" : "req:mid"));
+      c.label(req == 1 ? "req:1" : (req == ncells ? "req:ncells" : "req:mid")); c.label(may_leave_cells_unreached ? "iterative:may-leave-unreached" : "iterative:all-reachable");
       c.nontrivial = true; c.op = "partiiterative"; c.announce();
       c12_fake_time = time_t(seed);
       FEAT::Dist::Comm comm = FEAT::Dist::Comm::world();
@@ -228,7 +252,7 @@ namespace c12
   template<typename Shape_> inline void register_shape(std::vector<vf::Target>& tg)
   {
     const std::string s = ShapeInfo<Shape_>::name();
-    tg.push_back({s + "_parti", [](vf::Tape& t, vf::Ctx& c) { parti_case<Shape_>(t, c); }, 256, 8, 60000});
-    tg.push_back({s + "_builtin", [](vf::Tape& t, vf::Ctx& c) { builtin_case<Shape_>(t, c); }, 256, 8, 60000});
+    tg.push_back({s + "_parti", [](vf::Tape& t, vf::Ctx& c) { parti_case<Shape_>(t, c); }, 192, 2, 60000});
+    tg.push_back({s + "_builtin", [](vf::Tape& t, vf::Ctx& c) { builtin_case<Shape_>(t, c); }, 160, 1, 60000});
   }
 } // namespace c12
